@@ -18,7 +18,8 @@ IMPORTS = "Require Import V.lib.Serde V.lib.Msgpack V.model.Quote V.model.Header
 THEOREMS = ["kind_tag_table", "tag_bijection", "unknown_tag_rejected", "header_fixed_prefix",
             "header_roundtrip", "from_record_accepts_iff", "from_record_short", "record_roundtrip",
             "record_kinds_distinguished", "chunk_roundtrip", "chunk_address_recomputed",
-            "chunk_encoding_carries_no_address", "decode_truncated_header", "mp_roundtrip_generic",
+            "chunk_encoding_carries_no_address", "decode_truncated_header", "decode_truncated",
+            "mp_decode_stable_under_extension", "mp_roundtrip_generic",
             "mp_encoding_prefix_free"]
 RULE = ("values of all eight record kinds built from real types (chunks with 0/1/31/32/255/256/65535/65536-byte and "
         "one 4 MiB payload; scratchpads with and without signature; Vec<Transaction> of 0-4 entries with 0-3 parents and "
@@ -191,6 +192,9 @@ def rnd_value(rng, kind, quick):
     if base == "Chunk":
         return {"data": rnd_data(rng, big=True)}
     if base == "Scratchpad":
+        if rng.random() < 0.25:     # built with the public API only (no serde on the way in)
+            return {"owner": rng.randrange(8), "enc": rnd_u64(rng), "data": rnd_hex(rng, rng.choice([0, 5, 200])),
+                    "counter": rng.choice([0, 1, 2, 9]), "sig": "valid", "native": True}
         return {"owner": rng.randrange(8), "enc": rnd_u64(rng), "data": rnd_data(rng), "counter": rnd_u64(rng),
                 "sig": rng.choice(["none", "valid", "other"])}
     if base == "Transaction":
@@ -291,6 +295,8 @@ def gen_malformed(ctx):
 def oracle(c, o):
     v = []
     if "panic" in o:
+        if o["panic"].startswith("LOSSY"):
+            return [("roundtrip", o["panic"])]
         return [("panic", "%s panicked: %s" % (c["op"], o["panic"]))]
     if "error" in o:
         return [("harness", o["error"])]
